@@ -622,6 +622,7 @@ impl MqttClientImpl {
         };
 
         client_impl.reconnect_options.normalize();
+        client_impl.next_reconnect_period = client_impl.reconnect_options.base_reconnect_period;
 
         client_impl
     }
